@@ -65,6 +65,7 @@ class Injector:
         t = [
             (os, "chdir", "os.chdir"), (os, "getcwd", "os.getcwd"), (os, "walk", "os.walk"),
             (os, "remove", "os.remove"), (os, "fdopen", "os.fdopen"), (os, "close", "os.close"),
+            (os, "replace", "os.replace"), (os, "rename", "os.rename"), (os, "unlink", "os.unlink"),
             (os.path, "isfile", "os.path.isfile"), (os.path, "isdir", "os.path.isdir"),
             (os.path, "exists", "os.path.exists"),
             (builtins, "open", "open"), (io, "open", "io.open"),
@@ -430,6 +431,12 @@ def sc_run(params, seed, big):
             kw["metadata_directory"] = os.path.join(wd, "md")
         elif md == "bad_type":
             kw["metadata_directory"] = 5
+        elif md == "taken":
+            # the name of the link to be written is taken by a DIRECTORY (whatever key signs): storing it fails
+            os.makedirs(os.path.join(wd, "md"))
+            kw["metadata_directory"] = os.path.join(wd, "md")
+            for i in range(6):
+                os.makedirs(os.path.join(wd, "md", "step.%s.link" % hk.sslib_key("ed25519", i).keyid[:8]), exist_ok=True)
         if params.get("streams"):
             kw["record_streams"] = True
         if params.get("env"):
